@@ -3,3 +3,16 @@ open Bec2Verif.C17
 #print axioms validatePoint_iff
 #print axioms validatePoint_error
 #print axioms sharedSecret_not_infinity
+#print axioms add_correct
+#print axioms double_correct
+#print axioms neg_correct
+#print axioms mul_correct
+#print axioms mulAdd_correct
+#print axioms add_representation_independent
+#print axioms sharedSecret_correct
+#print axioms ecdh_agree
+#print axioms affine_add_correct
+#print axioms affine_double_correct
+#print axioms affine_neg_correct
+#print axioms curveOK_23
+#print axioms two_ne_zero_of_odd
